@@ -44,24 +44,26 @@ theorem imm64_256 : imm64 256 = 256 := by decide +kernel
 theorem imm64_128 : imm64 128 = 128 := by decide +kernel
 theorem imm64_32 : imm64 32 = 32 := by decide +kernel
 
-/-- the memory of the ladder: destination and scratch buffers, round keys and the input -/
+/-- the memory of the ladder: destination and scratch buffers, round keys; the input stays readable beyond what has been written
+    (`adv`; the input may lie in the destination buffer itself: the in-place call) -/
 structure LadMem (M2 : List Nat → List Nat → List Region) (dbase dlen tp : Nat) (rk src : List Nat) (sp : Nat) : Prop where
   m2 : Mem2 M2 dbase dlen tp
   rk : ∀ dc tc i, dc.length = dlen → tc.length = 32 → i < 32 → readMem (M2 dc tc) (73014444032 + 4 * i) 4 = .ok (lanes 8 4 (rk.getD i 0))
-  src : ∀ dc tc, dc.length = dlen → tc.length = 32 → DataAt (M2 dc tc) sp src
+  adv : ∀ dc tc o n bs, dc.length = dlen → tc.length = 32 → bs.length = n → o + n ≤ src.length → SrcFrom (M2 dc tc) sp src o →
+    SrcFrom (M2 (spliceAt dc o bs) tc) sp src (o + n)
 
 def ladKeepG : List Nat := [0, 6, 15]
 def ladKeepV : List Nat := [10, 11, 12, 15, 16, 17, 18, 19, 22, 23, 24, 25, 26, 29, 30, 31]
 
 /-- the state of `cryptoBlocksAsm` at a class label after `c` blocks: `nl` lanes of Z14 hold the counter, Z21 the GHASH value,
     the destination holds `dc`, the scratch block `tc` -/
-structure LadSt (M2 : List Nat → List Nat → List Region) (dbase dlen tp sp toff : Nat) (W : Nat × Nat × Nat × Nat) (h hf srcLen : Nat)
+structure LadSt (M2 : List Nat → List Nat → List Region) (dbase dlen tp sp toff : Nat) (W : Nat × Nat × Nat × Nat) (h hf : Nat) (src : List Nat)
     (nl c y : Nat) (dc tc : List Nat) (s : State) : Prop where
   pc : PCtx s
   gh : GhCtx h s
   rkp : greg s 15 = 73014444032
   g0 : greg s 0 = hf
-  g9 : greg s 9 = srcLen - 16 * c
+  g9 : greg s 9 = src.length - 16 * c
   g10 : greg s 10 = sp + 16 * c
   g13 : greg s 13 = dbase + 16 * c
   g6 : greg s 6 = tp + toff
@@ -71,6 +73,15 @@ structure LadSt (M2 : List Nat → List Nat → List Region) (dbase dlen tp sp t
   mem : s.mem = M2 dc tc
   hdc : dc.length = dlen
   htc : tc.length = 32
+  srcOK : ∀ t, t.length = 32 → SrcFrom (M2 dc t) sp src (16 * c)
+
+/-- the strong form: the input is readable whatever destination and scratch hold (input and destination disjoint) -/
+theorem LadMem.ofData {M2 : List Nat → List Nat → List Region} {dbase dlen tp : Nat} {rk src : List Nat} {sp : Nat} (m2 : Mem2 M2 dbase dlen tp)
+    (hrk : ∀ dc tc i, dc.length = dlen → tc.length = 32 → i < 32 → readMem (M2 dc tc) (73014444032 + 4 * i) 4 = .ok (lanes 8 4 (rk.getD i 0)))
+    (hsrc : ∀ dc tc, dc.length = dlen → tc.length = 32 → DataAt (M2 dc tc) sp src) (hsl : src.length ≤ dlen) :
+    LadMem M2 dbase dlen tp rk src sp :=
+  ⟨m2, hrk, fun dc tc o n bs hdc htc hbs hle _ =>
+    SrcFrom.ofData (hsrc _ tc (by rw [spliceAt_length _ _ _ (by omega)]; exact hdc) htc) _⟩
 
 theorem pRegs_lad : ∀ n, n ∈ pRegs → n ∈ ladKeepV := by decide
 theorem ghRegs_lad : ∀ n, n ∈ ghRegs → n ∈ ladKeepV := by decide
